@@ -224,11 +224,15 @@ def _check(mod, meta, prop, tier, seed, repo, jobs, replay, workdir, t0, quiet):
               'coverage': coverage, 'assumptions': meta.get('assumptions', []),
               'wall_s': round(wall_s, 2), 'violations': len(new),
               'verdict': 'violated' if new else ('inconclusive' if inconclusive else 'held-on-observed')}
-        os.makedirs(os.path.join(ROOT, 'evidence'), exist_ok=True)
-        tmp = os.path.join(ROOT, 'evidence', f'{prop}.json.tmp')
+        # evidence/ describes /repo only: a run against another tree (VERIF_REPO=<scratch copy>, used by
+        # tools/seeded.py and tools/mutate.py) leaves its record under .work/ instead
+        evdir = os.path.join(ROOT, 'evidence') if os.path.realpath(repo) == os.path.realpath('/repo') \
+            else os.path.join(ROOT, '.work', 'evidence-of-other-trees')
+        os.makedirs(evdir, exist_ok=True)
+        tmp = os.path.join(evdir, f'{prop}.json.tmp{os.getpid()}')
         with open(tmp, 'w') as f:
             json.dump(ev, f, indent=1, ensure_ascii=False)
-        os.replace(tmp, os.path.join(ROOT, 'evidence', f'{prop}.json'))
+        os.replace(tmp, os.path.join(evdir, f'{prop}.json'))
 
     head = (f'{prop} tier={tier} seed={seed} repo={repo}: {int(evaluations)} monitored events judged, '
             f'{len(distinct)} distinct non-trivial cases, {counters.get("cases", 0)} cases, '
